@@ -108,9 +108,14 @@ def index_expressions(shape):
     if n0 <= 4:
         for bits in itertools.product([False, True], repeat=n0):
             exprs.append(np.array(bits, dtype=bool))
+    exprs.append([])  # the empty Python list: an empty integer index to NumPy
+    if n0 <= 4:
+        for bits in itertools.product([False, True], repeat=n0):
+            exprs.append(list(bits))  # masks given as Python lists (the empty one for a zero-length axis included)
     if n0 > 0:
         exprs.append(np.array([0, n0 - 1, 0]))
         exprs.append([n0 - 1, 0])
+        exprs.append([0])
         exprs.append(np.array([], dtype=int))
     if int(np.prod(shape)) <= 8 and nd >= 2:
         exprs.append(np.ones(shape, dtype=bool))
